@@ -419,7 +419,12 @@ func (c *Ctx) bodyTotal(s readSite) (total ssa.Value, how, why string) {
 }
 
 // c05Guard: R4.
-func (c *Ctx) c05Guard(rp map[*ssa.Function]bool, bodyLen ssa.Value) {
+func (c *Ctx) c05Guard(rp map[*ssa.Function]bool, bodyLen ssa.Value) { c.lengthGuard(rp, "R4") }
+
+// lengthGuard checks that every MessageLength − HeaderLength subtraction on the read path is
+// protected by a MessageLength >= HeaderLength guard (in the function or, one level up, through
+// an establishing callee on every caller).
+func (c *Ctx) lengthGuard(rp map[*ssa.Function]bool, rule string) {
 	r := c.R
 	// subtraction sites
 	var subs []*ssa.BinOp
@@ -431,7 +436,7 @@ func (c *Ctx) c05Guard(rp map[*ssa.Function]bool, bodyLen ssa.Value) {
 		})
 	}
 	if len(subs) == 0 {
-		r.Undecided("R4", "role:length-subtraction", "-", "no MessageLength − HeaderLength computation on the read path")
+		r.Undecided(rule, "role:length-subtraction", "-", "no MessageLength − HeaderLength computation on the read path")
 		return
 	}
 	isGuardOn := func(g flow.Guard) bool {
@@ -518,7 +523,7 @@ func (c *Ctx) c05Guard(rp map[*ssa.Function]bool, bodyLen ssa.Value) {
 		f := sub.Parent()
 		key := fname(f) + ":MessageLength-HeaderLength"
 		if g, where := guardedAt(sub); g {
-			r.Ok("R4", key, c.pos(sub), "dominated in the same function by the MessageLength ≥ HeaderLength guard at "+where+" whose failing edge returns an error")
+			r.Ok(rule, key, c.pos(sub), "dominated in the same function by the MessageLength ≥ HeaderLength guard at "+where+" whose failing edge returns an error")
 			continue
 		}
 		// caller search
@@ -557,9 +562,9 @@ func (c *Ctx) c05Guard(rp map[*ssa.Function]bool, bodyLen ssa.Value) {
 			}
 		}
 		if all > 0 && found == all {
-			r.Ok("R4", key, c.pos(sub), why)
+			r.Ok(rule, key, c.pos(sub), why)
 		} else {
-			r.Fail("R4", key, c.pos(sub), "the unsigned subtraction MessageLength − HeaderLength is not protected by a guard rejecting MessageLength < 20: a declared length of 0..19 wraps to ~4 GiB and the reader consumes/allocates far beyond the message")
+			r.Fail(rule, key, c.pos(sub), "the unsigned subtraction MessageLength − HeaderLength is not protected by a guard rejecting MessageLength < 20: a declared length of 0..19 wraps to ~4 GiB and the reader consumes/allocates far beyond the message")
 		}
 	}
 }
